@@ -94,6 +94,11 @@ func (cx *Ctx) oracleC15(rs []JobResult) (bool, string, string, string) {
 		if a.Verdict == "BUDGET" || b.Verdict == "BUDGET" {
 			continue
 		}
+		if jr.Job.Calls[i].Opts.P1 == "greedy-random" && (a.Tasks > 1 || b.Tasks > 1) {
+			// the explicitly non-deterministic option reads the clock; once the call itself runs several goroutines the
+			// simulated time at that read depends on the schedule, so "what it returns when run alone" is not one value
+			continue
+		}
 		if a.Hash != b.Hash || a.Verdict != b.Verdict {
 			c := jr.Job.Calls[i]
 			what := fmt.Sprintf("caller %d of %d concurrent callers: Layout(%s; %s) %s when run alone but %s under %s",
